@@ -513,6 +513,74 @@ func chanCapacityIn(w *World, r *Report, fn *ssa.Function) {
 		var visitRefs func(v ssa.Value)
 		seen := map[ssa.Value]bool{}
 		selectRecv := false
+		// visitCell follows a channel kept in a local variable: loads in the creator are further views of the
+		// channel; closures that capture the variable and are started with `go` are senders. False when the
+		// variable is assigned a second time or a capturing closure is used in another way.
+		visitCell := func(cell *ssa.Alloc, init *ssa.Store) bool {
+			if cell.Referrers() == nil {
+				return false
+			}
+			for _, ref := range *cell.Referrers() {
+				switch x := ref.(type) {
+				case *ssa.Store:
+					if x != init {
+						return false
+					}
+				case *ssa.UnOp:
+					if x.Op != token.MUL {
+						return false
+					}
+					visitRefs(x)
+				case *ssa.DebugRef:
+				case *ssa.MakeClosure:
+					cl, _ := x.Fn.(*ssa.Function)
+					if cl == nil {
+						return false
+					}
+					var fv *ssa.FreeVar
+					for i, b := range x.Bindings {
+						if b == cell && i < len(cl.FreeVars) {
+							fv = cl.FreeVars[i]
+						}
+					}
+					if fv == nil || fv.Referrers() == nil {
+						return false
+					}
+					n, loop, recvOnly := 0, false, true
+					for _, r2 := range *fv.Referrers() {
+						ld, ok := r2.(*ssa.UnOp)
+						if !ok || ld.Op != token.MUL {
+							return false // re-assigned or captured again one level down
+						}
+						k, l, esc := sendsOnParam(cl, ld, 0)
+						if esc {
+							return false
+						}
+						n += k
+						loop = loop || l
+						if k > 0 {
+							recvOnly = false
+						}
+					}
+					if recvOnly {
+						continue // the closure only receives from (or closes) the channel
+					}
+					if x.Referrers() == nil {
+						return false
+					}
+					for _, r3 := range *x.Referrers() {
+						g, ok := r3.(*ssa.Go)
+						if !ok || g.Call.Value != x {
+							return false
+						}
+						senders = append(senders, sender{g: g, sends: n, loop: loop})
+					}
+				default:
+					return false
+				}
+			}
+			return true
+		}
 		visitRefs = func(v ssa.Value) {
 			if seen[v] {
 				return
@@ -530,6 +598,15 @@ func chanCapacityIn(w *World, r *Report, fn *ssa.Function) {
 					// a receive-only view of the channel cannot add senders
 					if ct, ok := v.Type().Underlying().(*types.Chan); ok && ct.Dir() == types.RecvOnly {
 						continue
+					}
+					// a local variable captured by closures: `done := make(chan error); go func() { done <- f() }()`
+					if st, ok := x.(*ssa.Store); ok && st.Val == v {
+						if cell, ok := st.Addr.(*ssa.Alloc); ok && cell.Parent() == fn {
+							if !visitCell(cell, st) {
+								escapes = true
+							}
+							continue
+						}
 					}
 					escapes = true
 				case *ssa.Go:
